@@ -219,9 +219,21 @@ def new_version_contract():
             kv = a['kwargs'].x['value'](k); kp = a['kwargs'].x['present'](k)
             cl.append(z3.Implies(z3.And(kp, z3.Not(_isnone(kv))), z3.And(m.x['present'](k), same_value(m.x['value'](k), kv))))     # requested value applied
             cl.append(z3.Implies(z3.And(kp, _isnone(kv)), z3.Not(m.x['present'](k))))                                                # None removes the property
-            cl.append(z3.Implies(z3.Not(kp), z3.And(m.x['present'](k) == a['data'].x['present'](k),
+            via_cp = z3.And(a['kwargs'].x['present']('custom_properties'), CP_IS_MAPPING, CP[z3.StringVal(k)], IS_BASE)
+            # requested through custom_properties (objects): the original's value is not handed to the constructor beside it -- it would take precedence there
+            cl.append(z3.Implies(z3.And(z3.Not(kp), via_cp), z3.Not(m.x['present'](k))))
+            cl.append(z3.Implies(z3.And(z3.Not(kp), z3.Not(via_cp)), z3.And(m.x['present'](k) == a['data'].x['present'](k),
                                                     z3.Implies(a['data'].x['present'](k), same_value(m.x['value'](k), a['data'].x['value'](k))))))  # untouched otherwise
         return z3.And(*cl)
+
+    def comp_drop_shadowed(x, e, p):
+        """{k: v for k, v in new_obj_inner.items() if k in kwargs or k not in kwargs["custom_properties"]}: a filtered copy -- a key stays exactly when it is a
+        keyword of this call or is not named in custom_properties; values are not touched (set-builder semantics of a comprehension filter, no quantifier needed)"""
+        m = p.env['new_obj_inner']; K = p.env['kwargs'].x['present']
+        keep = lambda k: z3.Or(K(k), z3.Not(CP[z3.StringVal(k) if isinstance(k, str) else k]))
+        u = z3.FreshConst(S, 'u')
+        pres = {k: z3.And(m.x['present'](k), keep(k)) for k in m.x['pres']}
+        yield p, map_val(pres, dict(m.x['vals']), z3.Lambda([u], z3.And(m.x['other'][u], keep(u))), dict(m.x['sorts']))
 
     c = Contract(
         f'{SRC}::new_version', props=['C05'],
@@ -243,7 +255,8 @@ def new_version_contract():
                                 ('map', 'has_custom'): attr_has_custom},
                       'methods': {('.update', 'map'): rebinding(m_update)}},
         store_handler=store,
-        comprehensions={'{k: v for k, v in new_obj_inner.items() if v is not None}': comp_filter_none},
+        comprehensions={'{k: v for k, v in new_obj_inner.items() if v is not None}': comp_filter_none,
+                        "{k: v for k, v in new_obj_inner.items() if k in kwargs or k not in kwargs['custom_properties']}": comp_drop_shadowed},
         on_outcomes=new_version_outcomes,
         assumptions=['A(copy.deepcopy): returns an equal value sharing no mutable state [probed natively in C13]',
                      'callee contracts used: _check_versionable_object (returns the detected version or raises), parse_into_datetime (C15), _fudge_modified (proved here), the class constructor (C02; may refuse)',
